@@ -1,7 +1,7 @@
 package tls
 
 //verif:harness C11 reported_server_name_is_wire_sni unwind=4000 instrs=600000000 paths=60000 wall=900
-//verif:stub (*math/rand.Rand).Shuffle zzStubShuffle
+//verif:stub (*math/rand.Rand).Shuffle zzStubShuffleIdentity
 //verif:expect end
 //verif:doc For every predefined parrot x Config.ServerName shapes (DNS name, empty, IPv4 literal; thorough: also trailing dot, bracketed IPv6, zone id, 253 bytes) x RemoveSNIExtension on/off x {no further call, SetSNI(other name), BuildHandshakeState then SetSNI(other name)}: after Handshake has sent the ClientHello (the peer never answers), ConnectionState().ServerName equals the server name in the SNI extension actually on the wire, and is empty when no SNI was sent.
 func zzC11ReportedServerNameIsWireSNI() {
